@@ -40,6 +40,11 @@ type vfC02Sess struct {
 }
 
 func vfC02(w *vfWorld) {
+	if w.variant == "race" {
+		// "decodes to exactly the session that was issued" under truly concurrent encoding / decoding of sessions
+		vfFreeRun(w, "C02")
+		return
+	}
 	t := w.tape
 	cs := &vfC02Case{ByClass: map[string]int{}}
 	w.sample = cs
